@@ -1514,7 +1514,8 @@ package bpmn
 //@   count(Spawn, code("(*ProcessSet).tracerProcess")) == old(count(Spawn, code("(*ProcessSet).tracerProcess"))) &&
 //@   count(Spawn, code("(*ProcessSet).run")) == old(count(Spawn, code("(*ProcessSet).run"))) &&
 //@   count(Spawn, code("(*ProcessSet).tracerProcess$1")) == old(count(Spawn, code("(*ProcessSet).tracerProcess$1"))) &&
-//@   count(Send, flowAction) == old(count(Send, flowAction))
+//@   count(Send, flowAction) == old(count(Send, flowAction)) &&
+//@   count(Call, code("tracing|ISenderHandle.Done")) == old(count(Call, code("tracing|ISenderHandle.Done")))
 
 //@ spec func noMonitorStarted() bool =
 //@   count(Spawn, code("(*Process).ceaseFlowMonitor$1")) == old(count(Spawn, code("(*Process).ceaseFlowMonitor$1")))
@@ -1638,7 +1639,7 @@ package bpmn
 // for the inner cease-flow trace on the sub-process's own (inner) tracer, so that is where the monitor must listen
 // and announce it — otherwise the parent's token never continues past the sub-process.
 //@ func (*subProcess).NextAction
-//@   prop C12
+//@   prop C12 C07
 //@   flag entrylocks
 //@   flag lockeffect sp.complete
 //@   requires old(sp.active) == 0 ==> held(mu(sp.complete)) == 0
@@ -1649,6 +1650,8 @@ package bpmn
 //@             (count(Spawn, code("(*subProcess).run")) == old(count(Spawn, code("(*subProcess).run"))) + 1 ==> old(sp.active) == 0)
 //@   ensures [one-request-queued-last] isSend(ev(evlen - 1)) && evch(ev(evlen - 1)) == sp.mch && is(evval(ev(evlen - 1)), nextActionMessage) &&
 //@             evval(ev(evlen - 1)).(nextActionMessage).response == result && chancap(result) == 1
+//@   ensures [the-loop-and-the-monitor-are-each-registered-as-a-sender-where-they-are-started @C07]
+//@             count(Call, code("tracing|ITracer.RegisterSender")) - old(count(Call, code("tracing|ITracer.RegisterSender"))) == 2 * (count(Spawn, code("(*subProcess).run")) - old(count(Spawn, code("(*subProcess).run"))))
 
 // The remaining node goroutines: message loops that block in a select offering the cancellation alternative and take no
 // further turn once they have observed it (C07).
@@ -1764,10 +1767,17 @@ package bpmn
 //@         (old(evt.activated) ==> count(Send, completeAction) == old(count(Send, completeAction)) + 1 && count(Send, flowAction) == old(count(Send, flowAction)))
 // The cancel handshake of a sub-process (C10, the twin of the generic task's): an interrupting boundary event asks the
 // activity to stop; a turn of the loop that takes a cancel message and goes on is a refusal - the normal flow continues.
+// The sub-process's loop and each of its activations send traces on the enclosing scope's tracer: like every other
+// node's loop they do so as registered senders, released exactly once when they end — a tracer terminates once its
+// registered senders are gone, and a trace sent to it after that blocks its sender for ever.
 //@ func (*subProcess).run
 //@   prop C07 C12 C10
+//@   ensures [a-loop-that-sends-traces-is-a-registered-sender-released-exactly-once-on-exit @C07] count(Call, code("tracing|ISenderHandle.Done")) == old(count(Call, code("tracing|ISenderHandle.Done"))) + 1
 //@   loop 1 for
 //@     cancels ctx
+//@     invariant count(Call, code("tracing|ISenderHandle.Done")) == old(count(Call, code("tracing|ISenderHandle.Done")))
+//@     iter ensures [an-activation-is-registered-as-a-sender-before-it-is-started @C07]
+//@       count(Call, code("tracing|ITracer.RegisterSender")) - old(count(Call, code("tracing|ITracer.RegisterSender"))) == count(Spawn, code("(*subProcess).run$1")) - old(count(Spawn, code("(*subProcess).run$1")))
 //@     iter ensures [interrupt-cancels-a-running-sub-process @C10]
 //@       !(isRecv(ev(old(evlen))) && evch(ev(old(evlen))) == sp.mch && is(evval(ev(old(evlen))), cancelMessage))
 
@@ -1808,6 +1818,7 @@ package bpmn
 //@ func (*subProcess).run$1
 //@   prop C12 C07
 //@   requires sp.wr != nil
+//@   ensures [an-activation-that-sends-traces-is-a-registered-sender-released-exactly-once-on-exit @C07] count(Call, code("tracing|ISenderHandle.Done")) == old(count(Call, code("tracing|ISenderHandle.Done"))) + 1
 //@   ensures [at-most-one-answer] count(Send, flowAction) <= old(count(Send, flowAction)) + 1
 //@   ensures [the-inner-cease-flow-trace-stays-inside] count(Trace, CeaseFlowTrace) == old(count(Trace, CeaseFlowTrace))
 //@   ensures [the-answer-offers-the-outgoing-flows-with-their-conditions-none-pre-selected]
@@ -1820,6 +1831,7 @@ package bpmn
 //@     invariant sp.wr != nil && sp.wr == old(sp.wr) && count(Send, flowAction) == old(count(Send, flowAction)) &&
 //@               count(Trace, CeaseFlowTrace) == old(count(Trace, CeaseFlowTrace)) &&
 //@               countOn(Recv, ctxdone(ctx)) == old(countOn(Recv, ctxdone(ctx)))
+//@     invariant count(Call, code("tracing|ISenderHandle.Done")) == old(count(Call, code("tracing|ISenderHandle.Done")))
 //@     exit ensures [the-relay-ends-only-on-the-inner-cease-flow-trace-and-the-parent-is-answered-only-afterwards] is(trace, CeaseFlowTrace) &&
 //@               count(Send, flowAction) == old(count(Send, flowAction)) &&
 //@               count(Trace, CeaseFlowTrace) == old(count(Trace, CeaseFlowTrace)) && countOn(Recv, ctxdone(ctx)) == old(countOn(Recv, ctxdone(ctx)))
